@@ -150,17 +150,38 @@ func genProg(r *common.Rand) *prog {
 	for i := 0; i < nf; i++ {
 		// function i may call f0..fi (itself: recursion)
 		var body *q
-		switch r.Intn(4) {
+		g := &q{kind: "param"}
+		switch r.Intn(8) {
 		case 0:
 			// a recursion that consumes its input: g-outputs first, then recurse on the elements
 			body = &q{kind: "comma", a: genQ(r, 2, i, true),
 				b: &q{kind: "pipe", a: &q{kind: "iter"}, b: &q{kind: "call", f: i, a: genQ(r, 1, i, true)}}}
+		case 1:
+			// a generator that uses its parameter again after its first output (re-entered by
+			// backtracking after the frame returned)
+			body = &q{kind: "comma", a: g, b: genQ(r, 2, i, true)}
+		case 2:
+			body = &q{kind: "pipe", a: genQ(r, 2, i, true), b: g}
+		case 3:
+			body = &q{kind: "comma", a: &q{kind: "arr", a: g}, b: g}
 		default:
 			body = genQ(r, r.Range(1, 4), i, true)
 		}
 		p.defs = append(p.defs, body)
 	}
-	p.main = genQ(r, r.Range(1, 4), nf-1, false)
+	call := func() *q { return &q{kind: "call", f: r.Intn(nf), a: genQ(r, r.Range(0, 2), nf-1, false)} }
+	switch k := r.Intn(8); {
+	case nf > 0 && k == 0:
+		// two calls in sequence: the second one's frame is allocated while the first one's
+		// forks are pending
+		p.main = &q{kind: "pipe", a: call(), b: call()}
+	case nf > 0 && k == 1:
+		p.main = &q{kind: "arr", a: &q{kind: "pipe", a: call(), b: &q{kind: "comma", a: call(), b: genQ(r, 1, nf-1, false)}}}
+	case nf > 0 && k == 2:
+		p.main = &q{kind: "pipe", a: &q{kind: "comma", a: call(), b: call()}, b: call()}
+	default:
+		p.main = genQ(r, r.Range(1, 4), nf-1, false)
+	}
 	return p
 }
 
